@@ -23,7 +23,7 @@ RULE = (
 ASSUMPTIONS = [
     "freshness is decided as 'the registered RNG / key generator is consulted once per file / per ECC block and its output is what is used'; entropy of os.urandom is out of scope",
 ]
-REQUIRED_CLASSES = ["agree.blocks>=2", "agree.keyless", "agree.ecc", "splice.body=K1", "splice.body=K2", "splice.ecc", "splice.same-tag", "splice.unopened-between", "passthrough.unopened>=1", "passthrough.unopened-ends00", "rekey.enc-component", "history.writes>=2", "history.keyless>=2"]
+REQUIRED_CLASSES = ["agree.blocks>=2", "agree.keyless", "agree.ecc", "splice.body=K1", "splice.body=K2", "splice.ecc", "splice.same-tag", "splice.unopened-between", "passthrough.unopened>=1", "passthrough.unopened-ends00", "passthrough.unknown-tag-block", "rekey.enc-component", "history.writes>=2", "history.keyless>=2"]
 
 B2 = sut.B2
 
@@ -150,6 +150,8 @@ def check_passthrough(case, rec):
     if unopened:
         rec.cls("passthrough.unopened>=1")
         rec.nt()
+    if any(b["kind"] == "unknown" for b in blocks):
+        rec.cls("passthrough.unknown-tag-block")
     bec = sut.mk_bec2(case)
     writers = sut.writers_for(case)
     b1 = bec.to_binary(writers)
@@ -359,8 +361,8 @@ def strat_splice(draw, tier="quick"):
 
 @st.composite
 def strat_passthrough(draw, tier="quick"):
-    blocks = draw(S.auth_blocks(min_size=1, allow_default_ecc=True))
-    openable = [i for i, b in enumerate(blocks) if not (b["kind"] == "ecc" and b.get("priv") is None)]
+    blocks = draw(S.auth_blocks(min_size=1, allow_default_ecc=True, allow_unknown=True))
+    openable = [i for i, b in enumerate(blocks) if b["kind"] != "unknown" and not (b["kind"] == "ecc" and b.get("priv") is None)]
     if not openable:
         blocks.append(dict(kind="upd", code=draw(st.binary(min_size=8, max_size=8)), version=draw(st.integers(0, 255))))
         openable = [len(blocks) - 1]
@@ -369,7 +371,7 @@ def strat_passthrough(draw, tier="quick"):
     if draw(st.booleans()):
         # construct: an unopened update/customer-key block whose stored bytes END IN 00 (a pass-through that trims or re-encodes shows only there)
         for i, b in enumerate(blocks):
-            if i in sub or b["kind"] == "ecc":
+            if i in sub or b["kind"] in ("ecc", "unknown"):
                 continue
             for t in range(4096):
                 if b["kind"] == "upd":
